@@ -2263,13 +2263,19 @@ impl PublicKey {
                 let jIU = U.xdouble(nI as u32) * j;
                 if V.equals(iU + jIU) != 0 {
                     let s1 = (i as i64) + ((j as i64) << nI);
-                    return Some(Self::make_sig(R_enc,
-                        &(s0 + T251 + Tn * Scalar::from_i64(s1))));
+                    let rsig = Self::make_sig(R_enc,
+                        &(s0 + T251 + Tn * Scalar::from_i64(s1)));
+                    if Self::extends_trunc_prefix(&sig2, &rsig, rm) {
+                        return Some(rsig);
+                    }
                 }
                 if V.equals(iU - jIU) != 0 {
                     let s1 = (i as i64) - ((j as i64) << nI);
-                    return Some(Self::make_sig(R_enc,
-                        &(s0 + T251 + Tn * Scalar::from_i64(s1))));
+                    let rsig = Self::make_sig(R_enc,
+                        &(s0 + T251 + Tn * Scalar::from_i64(s1)));
+                    if Self::extends_trunc_prefix(&sig2, &rsig, rm) {
+                        return Some(rsig);
+                    }
                 }
             }
         }
@@ -2280,6 +2286,26 @@ impl PublicKey {
 
     /// Rebuilds a signature value from the encoded R point (exactly
     /// 32 bytes) and a given scalar.
+    /// Checks that a rebuilt signature extends the received prefix (the
+    /// received signature with its last `rm` bits cleared): the rebuilt
+    /// scalar is obtained modulo L, and may thus differ from the received
+    /// value on the non-ignored bits, in which case no completion of the
+    /// received prefix is valid.
+    fn extends_trunc_prefix(prefix: &[u8; 64], sig: &[u8; 64], rm: usize)
+        -> bool
+    {
+        let n = (519 - rm) >> 3;
+        let mut d = 0u8;
+        for i in 0..n {
+            let mut b = sig[i];
+            if i == n - 1 && (rm & 7) != 0 {
+                b &= 0xFFu8 >> (rm & 7);
+            }
+            d |= b ^ prefix[i];
+        }
+        d == 0
+    }
+
     fn make_sig(R_enc: &[u8], s: &Scalar) -> [u8; 64] {
         let mut sig = [0u8; 64];
         sig[0..32].copy_from_slice(R_enc);
